@@ -256,7 +256,7 @@ def _skolemize_goal(goal):
     return go(goal), consts
 
 
-def _ground_terms(e, limit=14):
+def _ground_terms(e, limit=24):
     """Ground Int-sorted terms of interest in e: uninterpreted constants and applications of uninterpreted functions."""
     out = {}
     stack = [e]
@@ -268,7 +268,9 @@ def _ground_terms(e, limit=14):
         seen.add(x.get_id())
         if z3.is_quantifier(x):
             continue
-        if z3.is_app(x):
+        if z3.is_int_value(x) and x.as_long() < 0:
+            out[x.get_id()] = x  # an interned name / class tag / singleton mentioned by the goal
+        elif z3.is_app(x):
             if (x.sort().eq(z3.IntSort()) and x.decl().kind() == z3.Z3_OP_UNINTERPRETED and not _has_free_var(x)
                     and len(str(x)) < 160):
                 out[x.get_id()] = x
@@ -298,8 +300,9 @@ def _instantiate(hyps, terms, cap=400):
 STRATEGIES = [
     # name, per-check timeout (ms), drop quantified hypotheses, mbqi
     ("qf", 2500, True, False),
-    ("ground", 6000, False, False),
-    ("ematch", 5000, False, False),
+    ("groundqf", 4000, False, False),  # goal skolemised, hypotheses instantiated at its ground terms, then quantifier-free
+    ("ground", 15000, False, False),
+    ("ematch", 10000, False, False),
     ("full", 6000, False, True),
     # counter-model search: quantified hypotheses replaced by their ground instances; a model found this way is a
     # *candidate* (it may violate a dropped quantified fact) and has to be validated by replay on the real code
@@ -314,12 +317,29 @@ def discharge(obl, specfuns, fuel=2, timeout_ms=10000, strategy=("full", 10000, 
     if obl.meta.get("trivial"):
         return {"status": "proved", "backend": "z3-simplifier", "fuel": 0, "ms": 0, "strategy": "simplify"}
     sname, tmo, drop_q, mbqi = strategy
+    # a goal that literally is one of the hypotheses (an invariant conjunct untouched by the path) needs no solver
+    parts = obl.goal.children() if z3.is_and(obl.goal) else [obl.goal]
+    hyp_ids = {h.get_id() for h in obl.hyps}
+
+    def qkey(q):  # a universally quantified formula up to its patterns / ids: sorts of the bound variables and the body
+        return (q.is_forall(), tuple(q.var_sort(i).name() for i in range(q.num_vars())), q.body().get_id())
+    if any(z3.is_quantifier(g) for g in parts):
+        qkeys = set()
+        for h in obl.hyps:
+            if z3.is_quantifier(h):  # z3.simplify is not idempotent on quantified formulas: compare up to two rounds
+                h1 = z3.simplify(h)
+                qkeys |= {qkey(x) for x in (h, h1, z3.simplify(h1)) if z3.is_quantifier(x)}
+        ok = all(g.get_id() in hyp_ids or (z3.is_quantifier(g) and qkey(g) in qkeys) for g in parts)
+    else:
+        ok = all(g.get_id() in hyp_ids for g in parts)
+    if parts and ok:
+        return {"status": "proved", "backend": "syntactic (goal is a hypothesis)", "fuel": 0, "ms": 0, "strategy": "syntactic"}
     neg = z3.Not(obl.goal)
     result = {"status": "unknown", "backend": None, "fuel": None, "strategy": sname}
     memo = {}
     for f in (fuel,):  # one query at full fuel: an unprovable low-fuel instance only burns its timeout
         sk = []
-        if sname in ("ground", "cex"):
+        if sname in ("ground", "groundqf", "cex"):
             # skolemize first: the definitions of spec-function applications on the skolem constants get unfolded too
             g2, sk = _skolemize_goal(obl.goal)
             neg = z3.Not(g2)
@@ -359,8 +379,10 @@ def discharge(obl, specfuns, fuel=2, timeout_ms=10000, strategy=("full", 10000, 
                     seen_ids.add(t.get_id())
                     uniq.append(t)
             hyps = hyps + inst1 + _instantiate([negq], uniq[:30], cap=900)
-        if sname == "ground":
-            terms = sk + [t for t in _ground_terms(g2) if all(not t.eq(c) for c in sk)]
+        if sname == "groundqf" and not sk:
+            break  # nothing to instantiate at: the plain qf strategy has covered this
+        if sname in ("ground", "groundqf"):
+            terms = sk + ([] if sname == "groundqf" else [t for t in _ground_terms(g2) if all(not t.eq(c) for c in sk)])
             inst = _instantiate(hyps, terms)
             # second round: the instances mention new ground terms (e.g. ghost index of the skolem key)
             more = []
@@ -368,8 +390,11 @@ def discharge(obl, specfuns, fuel=2, timeout_ms=10000, strategy=("full", 10000, 
                 more.extend(_ground_terms(t, limit=6))
             seen = {t.get_id() for t in terms}
             more = [t for t in more if t.get_id() not in seen][:10]
-            inst += _instantiate(hyps, more, cap=200)
+            if sname != "groundqf":
+                inst += _instantiate(hyps, more, cap=200)
             hyps = hyps + inst
+            if sname == "groundqf":
+                hyps = [h for h in hyps if not _has_quantifier(h, memo)]
         s = z3.Solver()
         s.set("timeout", tmo)
         if not mbqi:
@@ -383,7 +408,7 @@ def discharge(obl, specfuns, fuel=2, timeout_ms=10000, strategy=("full", 10000, 
         if r == z3.sat and sname == "cex":
             result.update(status="refuted", backend="z3py/cex", fuel=f, model=s.model(), candidate=True)
             continue
-        if r == z3.sat and not drop_q:
+        if r == z3.sat and not drop_q and sname != "groundqf":  # (groundqf dropped hypotheses: its models mean nothing)
             # under bounded unfolding a sat answer may be an artefact; deeper fuel may still prove it
             result.update(status="refuted", backend="z3py/%s" % sname, fuel=f, model=s.model())
             continue
@@ -423,6 +448,8 @@ def discharge_all(obls, specfuns, fuel=2, timeout_ms=10000, progress=None, jobs=
     spent = {}
 
     attempts = {}
+    stop_first = bool(os.environ.get("PYVC_STOP_FIRST"))  # mutation runs: one failed obligation decides
+    failed = []
 
     def finish(i, k, r):
         spent[i] = spent.get(i, 0) + r.get("ms", 0)
@@ -434,6 +461,8 @@ def discharge_all(obls, specfuns, fuel=2, timeout_ms=10000, progress=None, jobs=
                 r = prev
             r["ms"] = spent[i]
             out[i] = r
+            if r["status"] != "proved":
+                failed.append(i)
             if progress:
                 progress(obls[i], r)
         else:
@@ -442,6 +471,7 @@ def discharge_all(obls, specfuns, fuel=2, timeout_ms=10000, progress=None, jobs=
             nxt = k + 1
             if strategies[nxt][0] == "cex" and out[i]["status"] == "refuted":
                 out[i]["ms"] = spent[i]
+                failed.append(i)
                 if progress:
                     progress(obls[i], out[i])
             else:
@@ -476,6 +506,12 @@ def discharge_all(obls, specfuns, fuel=2, timeout_ms=10000, progress=None, jobs=
             running[key][1].close()
             del running[key]
             finish(key[0], key[1], r)
+        if stop_first and failed:
+            for key, (p, pc, t0, dl) in running.items():
+                p.kill()
+                p.join()
+                pc.close()
+            return [r if r is not None and (r["status"] == "proved" or i in failed) else {"status": "skipped", "backend": None, "ms": 0} for i, r in enumerate(out)]
         if not done:
             time.sleep(0.004)
     return out
